@@ -52,6 +52,19 @@ ASSUMPTIONS = [
     'activity residual <= 2e-2 relative on chemicals with mole fraction > 1e-12 in both phases',
     'equal activity is proved only at exact fixed points of the repaired pseudo-equilibrium map; for the real '
     'iterations and the global optimisers it is residual-monitored by the oracle',
+    'which chemicals take part and their flows are decided by the adapter from the flows read through the public API '
+    '(and compared with what LLE.get_liquid_mol_data selected: signature lle-selection:*); the tolerances on the '
+    'protocol line are the documented defaults (1e-3 K, 1e-5), asserted on a new solver (default-cache-tolerance)',
+    'SLE: the solubility x on the protocol line is what the real _solve_x handed to _update_solubility; _solve_x itself '
+    '(eutectic formula, which activity coefficient it picks) is NOT checked — the property speaks of "the solubility '
+    'it computed"',
+    'known findings are matched quantitatively: a pseudo-equilibrium result counts as the documented frozen-K defect '
+    'only if the adapter, from thermo.Gamma alone, finds y_i/x_i of the returned phases equal (1e-4) to the K of the '
+    'initial guess (documented default guess or the remembered K); anything else gets a :K-is-not-the-frozen-initial-guess '
+    'signature that is not listed',
+    '"reuse gives the same split as forbidding it" for a query within the tolerances but not identical to the remembered '
+    'one has no theorem (it needs continuity of the external solver): decided by correspondence + oracle at the stated '
+    'tolerance; cached_path_reproduces covers the identical query',
 ]
 TRUSTED = ['Lean 4.33 kernel', 'harness/props/c15.py + Driver/C15.lean', 'generator reach (see histogram)',
            'thermo.Gamma (UNIFAC Dortmund) as the activity model used by the oracle']
@@ -315,7 +328,42 @@ def single_test(idx, T):
         f = l + L
         gain = (G(l) + G(L) - G(f)) / f.sum()
         return bool(gain > -F_TOL)
+    def gibbs(l, L):
+        """Gibbs energy of mixing of the result (l, L) per mole of feed"""
+        l = np.asarray(l, float)[idx]; L = np.asarray(L, float)[idx]
+        return (G(l) + G(L)) / (l.sum() + L.sum())
+    es.gibbs = gibbs
     return es
+
+
+def raw_call(stream, T, top):
+    """stream.lle(T, top, use_cache=False) with the solver's own return value recorded (per unit feed)"""
+    saved = dict(REC)
+    _rec_reset()
+    try:
+        stream.lle(T, top_chemical=top, use_cache=False)
+        raw = None if REC['solve'] is None else np.array(REC['solve'], float)
+    finally:
+        REC.clear(); REC.update(saved)
+    return raw
+
+
+def is_solver_answer(l, L, raw, idx, F):
+    """are the flows of the stream what its solver returned (solver's mol_L x F, the rest in the other label)?"""
+    if raw is None: return False
+    l = np.asarray(l, float)[idx]; L = np.asarray(L, float)[idx]
+    z = (l + L) / F
+    a, b = (z - raw) * F, raw * F
+    ok = lambda u, v: bool(np.all(np.abs(u - v) <= 1e-9 * F))
+    return (ok(l, a) and ok(L, b)) or (ok(l, b) and ok(L, a))
+
+
+def optimiser_disagreement(es, A, B):
+    """Two answers of a Gibbs-energy minimiser to the same normalised problem (inputs equal up to rounding) that differ
+    beyond the tolerance: 'flat' if their Gibbs energies agree within the solver's own f_tol (two equally good minima at
+    its resolution), else the difference (one of them is not the minimum it was asked for)."""
+    gA, gB = es.gibbs(*A), es.gibbs(*B)
+    return ('flat', abs(gA - gB)) if abs(gA - gB) <= F_TOL else ('not-at-minimum', abs(gA - gB))
 
 
 def split_mismatch(l1, L1, l2, L2, F, upto_swap, es, **k):
@@ -325,6 +373,38 @@ def split_mismatch(l1, L1, l2, L2, F, upto_swap, es, **k):
     if upto_swap:
         m = min(m, max(mismatch(l1, L2, F, **k), mismatch(L1, l2, F, **k)))
     return m
+
+
+def default_guess_K(z, idx, T):
+    """the partition coefficients of the documented default initial guess of solve_lle_liquid_mol (0.99 / 1e-3 of the
+    two chemicals with the largest mass in the feed), recomputed here through thermo.Gamma — NOT read from the solver"""
+    chems = [LTH.chemicals.tuple[i] for i in idx]
+    g = LTH.Gamma(chems)
+    MW = np.array([c.MW for c in chems])
+    order = np.argsort(z * MW)
+    a, b = order[-1], order[-2]
+    x = z.copy(); y = z.copy()
+    x[a] = 0.99; y[a] = 1e-3; x[b] = 1e-3; y[b] = 0.99
+    x /= x.sum(); y /= y.sum()
+    return g(y, T) / g(x, T)
+
+
+def is_frozen_K_split(z, K0, molL):
+    """Is `molL` (what solve_lle_liquid_mol returned for the normalised feed z) the Rachford-Rice split at the
+    partition coefficients K0 the iteration STARTED from?  That is the documented, doctest-pinned defect of the
+    pseudo-equilibrium method (K never updated, fixes_proposed/C15-3.md): the returned phases have y_i/x_i = K0_i
+    exactly; a single liquid is its prediction only when the Rachford-Rice function at K0 has no root inside (0, 1)."""
+    z = np.asarray(z, float); K0 = np.asarray(K0, float)
+    molL = np.asarray(molL, float); moll = z - molL
+    FL, Fl = molL.sum(), moll.sum()
+    with np.errstate(all='ignore'):
+        if FL <= 1e-12 or Fl <= 1e-12:
+            f0 = float((z * (K0 - 1.)).sum()); f1 = float((z * (K0 - 1.) / K0).sum())
+            return not (f0 > 0. > f1)
+        x, y = molL / FL, moll / Fl
+        ok = (x > 0) & (y > 0)
+        if not ok.any(): return False
+        return bool(np.all(np.abs(y[ok] / x[ok] - K0[ok]) <= 1e-4 * np.abs(K0[ok])))
 
 
 def activity_residual(s, idx, T):
@@ -356,11 +436,19 @@ def run_lle(case, model_in, outs, failures, tags):
     def emit(line, ans):
         model_in.append(line); outs.append(ans)
     emit('lle-reset', 'ok')
+    # the tolerances a new solver starts with bound how far "the same temperature / composition" reaches
+    probe = tmo.Stream(None, Water=1., Octane=1., thermo=LTH).lle
+    if probe.temperature_cache_tolerance != DEF_TOLT or probe.composition_cache_tolerance != DEF_TOLZ:
+        failures.append({'signature': 'default-cache-tolerance', 'op_index': 0,
+                         'what': f'a new LLE solver reuses remembered coefficients within {probe.temperature_cache_tolerance} K '
+                                 f'and {probe.composition_cache_tolerance} in mole fraction; the documented defaults are '
+                                 f'{DEF_TOLT} K and {DEF_TOLZ}'})
     s = new_lle_stream(flows0, method, tolT, tolZ, emit)
     tags.append('lle:' + MTAG[method])
     eff_tolT = DEF_TOLT if tolT is None else tolT
     eff_tolZ = DEF_TOLZ if tolZ is None else tolZ
     prev = None            # (T, z, idx) of the previous effective call
+    frozen_chain = True    # pseudo equilibrium: every K this stream remembers is an initial guess that never moved
     ncalls = 0
     two_phase_after_history = False
     for k in range(1, len(ops)):
@@ -370,6 +458,7 @@ def run_lle(case, model_in, outs, failures, tags):
             apply_lle_op(s, t, emit=emit)
             if t[1] == 'resetcache' or 'caches=fresh' in outs[n0:]:
                 prev = None         # a new solver object: nothing is remembered
+                frozen_chain = True
             if t[1] in ('phases', 'touch'):
                 tags.append(f'phase-set:{t[1]}:' + ('changed' if any(o.startswith('caches=') and l.endswith('=1')
                                                                     for l, o in zip(model_in[n0:], outs[n0:])) else 'same'))
@@ -380,9 +469,15 @@ def run_lle(case, model_in, outs, failures, tags):
         feed = total_flows(s)
         F_feed = feed.sum()
         if 0 < F_feed < 1e-3: tags.append('feed:tiny(<1e-3 kmol/hr)')
+        # which chemicals take part and with which flows: decided HERE from the flows read through the public API
+        # (every chemical of the package is an LLE chemical), not taken from the code's own selection
+        idx_own = [i for i in range(len(feed)) if feed[i] != 0]
+        mol_own = feed[idx_own]
         lle = access(s, 'lle', emit)
         phi_before = lle._phi          # remembered phase fraction: the solver takes the remembered K as its
         guess_is_remembered = lle._K is not None and phi_before is not None and 0 < phi_before < 1   # guess only then
+        K_before = None if lle._K is None else np.array(lle._K, float)
+        chems_before = None if lle._lle_chemicals is None else [c.ID for c in lle._lle_chemicals]
         _rec_reset()
         raised = None
         try:
@@ -391,8 +486,21 @@ def run_lle(case, model_in, outs, failures, tags):
             raised = e
         finally:
             REC['on'] = False
-        if REC['gl'] is None: raise raised
-        mol, idx, chems = REC['gl']
+        if REC['gl'] is None and raised is not None:
+            failures.append({'signature': f'lle-raises:{type(raised).__name__}:before-selection', 'op_index': len(model_in),
+                             'what': f'lle(T={T}, top_chemical={top!r}, use_cache={uc}) raises {type(raised).__name__}: {raised} '
+                                     f'before the liquids were even read (method={method})'})
+            tags.append('lle:raised')
+            break
+        if REC['gl'] is not None:
+            g_mol, g_idx, g_chems = REC['gl']
+            if list(g_idx) != idx_own or g_mol.shape != mol_own.shape or \
+                    not np.all(np.abs(g_mol - mol_own) <= 1e-12 * np.abs(mol_own)):
+                failures.append({'signature': 'lle-selection:chemicals-or-flows', 'op_index': len(model_in),
+                                 'what': f'the liquids hold {sig6(mol_own)} of {[LNAMES[i] for i in idx_own]}, the calculation '
+                                         f'worked on {sig6(g_mol)} of {[c.ID for c in g_chems]}'})
+        mol, idx = mol_own, idx_own
+        chems = [LTH.chemicals.tuple[i] for i in idx]
         ids = [c.ID for c in chems]
         F = mol.sum()
         l_after, L_after = rows(s)
@@ -425,6 +533,14 @@ def run_lle(case, model_in, outs, failures, tags):
         path = 'solve' if REC['solve'] is not None else 'cache'
         tags.append('path:' + path)
         z = mol / F
+        if method == 'pseudo equilibrium' and path == 'solve' and raised is None:
+            # does this answer carry the fingerprint of the documented defect (K frozen at the initial guess)?
+            remembered = guess_is_remembered and chems_before == ids and K_before is not None and len(K_before) == len(idx)
+            K0 = K_before if remembered else default_guess_K(z, idx, T)
+            frozen_chain = (frozen_chain or not remembered) and is_frozen_K_split(z, K0, REC['solve'])
+            tags.append('pseudo-equilibrium:answer-is-the-split-at-the-' + ('remembered' if remembered else 'default')
+                        + '-guess-K:' + ('yes' if frozen_chain else 'NO'))
+        main_raw = None if REC['solve'] is None else np.array(REC['solve'], float)
         rr_raised = 'err' in REC['pf']
         if rr_raised: tags.append('rachford-rice-raised')
         if raised is not None:
@@ -496,6 +612,10 @@ def run_lle(case, model_in, outs, failures, tags):
             elif abs(T - pT) < eff_tolT: rel = 'other-composition'
             else: rel = 'other-T-and-composition'
         tags.append('history:' + rel)
+        if prev is not None and rel in ('lower-T', 'higher-T') and abs(T - prev[0]) <= 1000.5 * eff_tolT:
+            tags.append('history:just-outside-the-temperature-tolerance(1.1..1000 x)')
+        if prev is not None and rel == 'other-composition' and np.max(np.abs(prev[1] - z)) <= 10.5 * eff_tolZ:
+            tags.append('history:just-outside-the-composition-tolerance(1.1..10 x)')
         custom_hit = (rel == 'within-tolerance') and (eff_tolT > DEF_TOLT or eff_tolZ > DEF_TOLZ)
         # 1. top label
         if topi is not None:
@@ -517,8 +637,9 @@ def run_lle(case, model_in, outs, failures, tags):
                 tags.append('activity-residual:' + MTAG[method] + (':<=2e-2' if ar[0] <= 2e-2 else ':>2e-2'))
                 _stat('act', method, len(idx), path, rel, ar[0])
                 if ar[0] > 2e-2 and not custom_hit:
-                    sig = 'activity-residual:' + MTAG[method]
-                    if method != 'shgo': sig += ':binary' if len(idx) == 2 else ':multicomponent'
+                    sig = 'activity-residual:' + MTAG[method] + (':binary' if len(idx) == 2 else ':multicomponent')
+                    if method == 'pseudo equilibrium' and not frozen_chain:
+                        sig += ':K-is-not-the-frozen-initial-guess'     # not the documented defect
                     if path == 'cache' and rel in ('lower-T', 'other-composition'): sig += ':cache-of-' + rel
                     failures.append({'signature': sig, 'op_index': op_index,
                                      'what': f'activities differ between the two liquids by {ar[0]:.3g} (relative): '
@@ -543,7 +664,7 @@ def run_lle(case, model_in, outs, failures, tags):
             _stat('twin', method, len(idx), path, rel, mm)
             if mm > thr:
                 sig = f'cache-vs-nocache:{rel}'
-                if method == 'pseudo equilibrium' and not guess_is_remembered:
+                if method == 'pseudo equilibrium' and not guess_is_remembered and frozen_chain:
                     # the remembered result was a single liquid, so the no-cache solve starts from the default guess
                     # instead of the remembered K; with K frozen (C15-3) the answer is whatever guess was taken
                     sig = 'history-vs-fresh:pseudo-equilibrium'
@@ -556,7 +677,7 @@ def run_lle(case, model_in, outs, failures, tags):
         if not custom_hit:
             fr = new_lle_stream({i: feed[i] for i in range(len(feed)) if feed[i]}, method, tolT, tolZ)
             try:
-                fr.lle(T, top_chemical=top, use_cache=False)
+                fr_raw = raw_call(fr, T, top)
             except Exception as e:
                 failures.append({'signature': f'lle-raises:{type(e).__name__}:fresh-stream', 'op_index': op_index,
                                  'what': f'a fresh stream with the same flows raises {type(e).__name__}: {e} '
@@ -567,9 +688,22 @@ def run_lle(case, model_in, outs, failures, tags):
             mm = split_mismatch(l_after, L_after, fl_, fL_, F_feed, upto_swap, es)
             _stat('fresh', method, len(idx), path, rel, mm)
             if mm > thr:
-                sig = 'history-vs-fresh:pseudo-equilibrium' if method == 'pseudo equilibrium' else \
-                    f'history-vs-fresh:{MTAG[method]}:{rel}'
-                failures.append({'signature': sig, 'op_index': op_index,
+                if method == 'pseudo equilibrium':
+                    # the documented defect only while every K this stream has remembered is a frozen initial guess (the
+                    # fresh stream's own answer is checked the same way when it is a main call of another case)
+                    sig = 'history-vs-fresh:pseudo-equilibrium' if frozen_chain else \
+                        'history-vs-fresh:pseudo-equilibrium:K-is-not-the-frozen-initial-guess'
+                else:
+                    sig = f'history-vs-fresh:{MTAG[method]}:{rel}'
+                    # both flows are what a solve of this very composition returned (the stream's own, and the fresh
+                    # stream's): then the history is not involved — the minimiser answers the same problem twice differently
+                    if path == 'solve' and is_solver_answer(l_after, L_after, main_raw, idx, F_feed) \
+                            and is_solver_answer(fl_, fL_, fr_raw, idx, F_feed):
+                        kind_, dG = optimiser_disagreement(es, (l_after, L_after), (fl_, fL_))
+                        tags.append('optimiser:two-solves-of-one-problem-differ:' + kind_)
+                        sig = None if kind_ == 'flat' else \
+                            f'optimiser-not-at-minimum:{MTAG[method]}:' + ('binary' if len(idx) == 2 else 'multicomponent')
+                if sig is not None: failures.append({'signature': sig, 'op_index': op_index,
                                  'what': f"after the history l={sig6(l_after[idx])} L={sig6(L_after[idx])}, "
                                          f"a fresh stream gives l={sig6(fl_[idx])} L={sig6(fL_[idx])} "
                                          f'(chemicals {ids}, T={T}, previous call {"none" if prev is None else prev[0]} K, '
@@ -579,7 +713,7 @@ def run_lle(case, model_in, outs, failures, tags):
             if kscale != 1:
                 sc = new_lle_stream({i: feed[i] * kscale for i in range(len(feed)) if feed[i]}, method, tolT, tolZ)
                 try:
-                    sc.lle(T, top_chemical=top, use_cache=False)
+                    sc_raw = raw_call(sc, T, top)
                 except Exception as e:
                     failures.append({'signature': f'lle-raises:{type(e).__name__}:scaled-fresh-stream', 'op_index': op_index,
                                      'what': f'a fresh stream with {kscale} x the flows raises {type(e).__name__}: {e} '
@@ -590,8 +724,15 @@ def run_lle(case, model_in, outs, failures, tags):
                 mm = split_mismatch(fl_ * kscale, fL_ * kscale, sl, sL, F_feed * kscale, upto_swap, es)
                 tags.append('scale-checked')
                 _stat('scale', method, len(idx), path, rel, mm)
-                if mm > thr:
-                    failures.append({'signature': f'scale:{MTAG[method]}', 'op_index': op_index,
+                sig = f'scale:{MTAG[method]}'
+                if mm > thr and method != 'pseudo equilibrium' and is_solver_answer(fl_, fL_, fr_raw, idx, F_feed) \
+                        and is_solver_answer(sl, sL, sc_raw, idx, F_feed * kscale):
+                    kind_, dG = optimiser_disagreement(es, (fl_, fL_), (sl, sL))
+                    tags.append('optimiser:two-solves-of-one-problem-differ:' + kind_)
+                    sig = None if kind_ == 'flat' else \
+                        f'optimiser-not-at-minimum:{MTAG[method]}:' + ('binary' if len(idx) == 2 else 'multicomponent')
+                if mm > thr and sig is not None:
+                    failures.append({'signature': sig, 'op_index': op_index,
                                      'what': f'feed scaled by {kscale}: flows {sig6(sl[idx])} / {sig6(sL[idx])} '
                                              f'are not {kscale} x {sig6(fl_[idx])} / {sig6(fL_[idx])} '
                                              f'(chemicals {ids}, T={T}, method={method})'})
@@ -837,34 +978,44 @@ def gen_lle(rng, method_i):
     for c in range(h + 1):
         last = c == h
         if c > 0:
+            tT = DEF_TOLT if tolT == '-' else float(tolT)
             def near_T():
-                return T if rng.random() < 0.6 else T + rng.choice([-1, 1]) * rng.choice([2e-4, 5e-4, 9e-4])
+                return T if rng.random() < 0.5 else T + rng.choice([-1, 1]) * rng.choice([0.2, 0.5, 0.9]) * tT
+            def nudge_z(f):
+                # change one flow so that the largest change of a mole fraction is f x the composition tolerance
+                i = rng.choice(sorted(flows)); tot = sum(flows.values()); zi = flows[i] / tot
+                flows[i] = flows[i] * (1 + rng.choice([-1, 1]) * f * DEF_TOLZ / (zi * (1 - zi)))
             sc = rng.random()
-            if sc < 0.20:                                   # a legitimate cache hit: T and z within the tolerances
+            if sc < 0.18:                                   # a legitimate cache hit: T and z within the tolerances
                 T = near_T()
                 r = rng.random()
                 if r < 0.35:
-                    i = rng.choice(sorted(flows)); flows[i] = flows[i] * (1 + rng.choice([-1, 1]) * rng.choice([2e-6, 8e-6]))
+                    nudge_z(rng.choice([0.2, 0.5, 0.9]))
                     ops.append(f'lle set flows={ftok(flows)}')
                 elif r < 0.6:
                     kk = rng.choice([0.5, 2]) if tiny else rng.choice([1e-3, 0.01, 0.5, 2, 10, 1e3])
                     flows = {i: v * kk for i, v in flows.items()}
                     ops.append(f'lle scale k={kk!r}')
-            elif sc < 0.42:                                 # colder, same composition
+            elif sc < 0.30:                                 # just outside the temperature tolerance, same composition
+                T = T + rng.choice([-1, 1]) * rng.choice([1.1, 3, 10, 100, 1000]) * tT
+                T = min(355., max(285., T))
+            elif sc < 0.46:                                 # colder, same composition
                 T = max(285., round(T - rng.uniform(8, 60), 2))
-            elif sc < 0.57:                                 # warmer, same composition
+            elif sc < 0.58:                                 # warmer, same composition
                 T = min(355., round(T + rng.uniform(8, 60), 2))
             elif sc < 0.78:                                 # same temperature, other composition
                 T = near_T()
                 i = rng.choice(sorted(flows))
                 r = rng.random()
-                if r < 0.35 and len(flows) >= 3:
+                if r < 0.3:                                 # just outside the composition tolerance
+                    nudge_z(rng.choice([1.1, 3, 10]))
+                elif r < 0.55 and len(flows) >= 3:
                     # move material from one chemical to another, total unchanged (as a reaction would):
                     # the mole fractions of the bystanders stay exactly where they were
                     j = rng.choice([x for x in sorted(flows) if x != i])
                     d = round(flows[i] * rng.choice([0.3, 0.5, 0.8]), 4)
                     flows[i] = flows[i] - d; flows[j] = flows[j] + d
-                elif r < 0.7: flows[i] = round(flows[i] * rng.choice([0.3, 0.5, 2, 3]), 4)
+                elif r < 0.8: flows[i] = round(flows[i] * rng.choice([0.3, 0.5, 2, 3]), 4)
                 else: flows[i] = flows[i] * (1 + rng.choice([-1, 1]) * rng.choice([3e-4, 1e-3, 1e-2]))
                 ops.append(f'lle set flows={ftok(flows)}')
             elif sc < 0.88:                                 # other chemical set
